@@ -10,7 +10,8 @@ EXPLANATION = ('Thin clause on type-checked MIR: (a) no detected conflict can be
                'the scan runs over dfa_lookup, which is built from get_states (closure of the universal start state under all 256 bytes and end of input), and generate turns every such error '
                'into compile_error diagnostics before the gate; (b) get_state_type returns Err exactly on the edge where more than one leaf remains after filtering the state\'s matches by equality with the '
                'maximum priority, and otherwise accepts the leaf with that maximum. Decides that detected conflicts cannot be lost or silently resolved; NOT the "iff" with language intersection.'
-               ' Since the E5 engine (G20, kind reference-tie): in every accepted corpus definition no reachable match state of the reference DFA has two leaves at the top priority, and the graph holds the top-priority leaf.')
+               ' Since the E5 engine (G20, kind reference-tie): in every accepted corpus definition no reachable match state of the reference DFA has two leaves at the top priority, and the graph holds the top-priority leaf.'
+               " Added in round 8: the default priority of a token is twice the byte length of the literal value itself (M-C09a) and ignore(case) tokens are compiled with the definition's own flags and the literal kind's Unicode mode (M-C10a, M-C10b): the priorities and languages whose overlap is tested are the documented ones.")
 
 
 def _len_test(fn, sb, payload):
